@@ -3,11 +3,14 @@ import json
 import re
 
 from .lib import PLUMBING, callee_allow, callers, closure_args_of_call, operand_local, try_edges
+from .lib_c13 import refinement_by_interpretation
 
 LEVEL = "other"
-TECHNIQUE = "static analysis: who-constructs census of the status refinement types with guard-edge dominance and evaluated constants, CHAIN slices of HttpError::into_response, who-reads census of internal_message with forward flow to log sinks, same-source and must-pass rules for the request id"
+TECHNIQUE = "static analysis: who-constructs census of the status refinement types with path-sensitive guard facts, interpretation of the constructing functions over the truth values of the two status predicates and evaluated constants, CHAIN slices of HttpError::into_response, who-reads census of internal_message with forward flow to log sinks, same-source and must-pass rules for the request id"
 LEVEL_TEXT = ("Decides structurally, for every path of the MIR: (R1) a value of ErrorStatusCode / ClientErrorStatusCode can only be produced by an evaluated constant in 400..=599 / 400..=499, by an "
-              "aggregate whose every incoming path passes the true edge of is_client_error()/is_server_error() on the same status, or by widening a client code — and the tuple field is private; "
+              "aggregate whose every incoming path has established is_client_error()/is_server_error() on the same status (path-sensitive boolean facts) or, where the wrapper is built before the guard is a "
+              "path fact (a match on the pair of predicates, `cond.then_some(Self(status))`), inside a function whose interpretation over every truth assignment of the two predicates yields a wrapper only "
+              "when its guard holds, or by widening a client code — and the tuple field is private; "
               "(R2) into_response builds status from self.status_code, a JSON body from exactly {request_id parameter, self.external_message, self.error_code}, moves self.headers into the response "
               "wholesale, and stamps x-request-id with the parameter; (R3) internal_message is read only by the logging accessor and derived Debug, its value flows only into fmt/slog sinks, and the "
               "constructors with a separate internal text take the external text from canonical_reason(); (R4) one generate_request_id() per request feeds the logger, the handler's context, the success "
@@ -15,7 +18,7 @@ LEVEL_TEXT = ("Decides structurally, for every path of the MIR: (R1) a value of 
 LEVEL_NOTE = "Trusts rustc MIR + const evaluation, the extractor, http::StatusCode::{is_client_error,is_server_error} (400..500 / 500..600), HeaderMap::insert (replaces), serde_json."
 EXPLANATION = ("WHO-CONSTRUCTS + DOM + CONST for the refinement types; CHAIN/SAME-SOURCE slices in HttpError::into_response and http_request_handle(_wrap); WHO-READS of field internal_message plus forward "
                "flow of the accessor's result to sinks; PASS (must-pass) for the x-request-id stamp on every normal exit.")
-TRUSTED = ["rustc nightly MIR + const evaluation", "mirfacts extractor", "rules/engine.py", "http::StatusCode predicates", "http::HeaderMap::insert", "serde_json"]
+TRUSTED = ["rustc nightly MIR + const evaluation", "mirfacts extractor", "rules/engine.py", "rules/absint.py + rules/lib_c13.py", "http::StatusCode predicates", "http::HeaderMap::insert", "serde_json"]
 
 ESC = "error_status_code::ErrorStatusCode"
 CESC = "error_status_code::ClientErrorStatusCode"
@@ -41,7 +44,8 @@ def _guards(f, status_locals_fn, allowed_preds):
 
 def r1_only_error_codes(ctx):
     R = ctx.rule("C13.R1", "ErrorStatusCode / ClientErrorStatusCode values arise only from constants evaluated in 400..=599 / 400..=499, from aggregates guarded on every path by is_client_error()/"
-                 "is_server_error() (client: is_client_error() only) of the same status, or from widening a ClientErrorStatusCode; the tuple field is private", floor=70)
+                 "is_server_error() (client: is_client_error() only) of the same status (or observable only under that guard, by interpretation of the constructing function), or from widening a "
+                 "ClientErrorStatusCode; the tuple field is private", floor=70)
     # (a) constants
     n_const = 0
     for c in ctx.ds.const_list:
@@ -53,6 +57,7 @@ def r1_only_error_codes(ctx):
             ctx.check(R, "const:%s" % c["id"], v is not None and lo <= v <= hi, "evaluated value %s (allowed %d..=%d)" % (v, lo, hi), nontrivial=True)
     ctx.check(R, "status-constants-evaluated", n_const >= 60, "associated status constants evaluated: %d" % n_const, nontrivial=False)
     # (b,c) aggregate sites
+    interpreted = {}
     for f in ctx.ds.F.values():
         for bb, i, st in f.aggregates(r"^error_status_code::(Client)?ErrorStatusCode$"):
             adt = st["rv"]["adt"]
@@ -74,9 +79,17 @@ def r1_only_error_codes(ctx):
                 if same and not callee_allow(ps, PLUMBING):
                     atoms.append(("call", pbb))
             ok, cex = f.guarded_by(bb, atoms_true=atoms) if atoms else (False, "no predicate on the wrapped status")
-            ctx.check(R, key, ok,
-                      "every path to the aggregate has established %s on the wrapped status: %s%s" % (" or ".join(p.split("::")[-1].rstrip("$") + "()" for p in preds), ok,
-                                                                                                  "" if ok else " (facts on an unguarded path: %s)" % (cex,)), (f, bb))
+            detail = "every path to the aggregate has established %s on the wrapped status: %s%s" % (
+                " or ".join(p.split("::")[-1].rstrip("$") + "()" for p in preds), ok, "" if ok else " (facts on an unguarded path: %s)" % (cex,))
+            if not ok:
+                # the wrapper may be built where the guard is not (yet) a path fact -- a tuple match on both predicates,
+                # `cond.then_some(Self(status)).ok_or(..)` -- as long as it is only *observable* under the guard: run the
+                # function over every truth assignment of the two predicates
+                if f.id not in interpreted:
+                    interpreted[f.id] = refinement_by_interpretation(ctx.ds, f)
+                ok, how = interpreted[f.id]
+                detail = ("%s; %s" % (detail, how)) if not ok else how
+            ctx.check(R, key, ok, detail, (f, bb))
     for adt in (ESC, CESC):
         a = ctx.ds.adts.get(adt)
         if not a:
@@ -325,7 +338,8 @@ def r5_every_response_stamped(ctx):
                 if recv.has_call(r"Response::<T>::headers_mut$") and (recv.locals() & src):
                     same = True
         ctx.check(R, "ok-exit-stamped", dom and same, "Ok(response) is dominated by insert(x-request-id)=%s on the same response=%s (an entry()/or_insert or conditional stamp would let a handler-supplied value survive)" % (dom, same), (hb, b))
-    he = ctx.need_fn(ctx.ds, R, r"^handler::HandlerError::into_response$")
+    # normalised view: `self.into_result().map_or_else(|e| .., |rsp| ..)`, a `match self`, and helpers holding one arm each are one program
+    he = ctx.need_fn(ctx.dsn, R, r"^handler::HandlerError::into_response$")
     sw = [(b, t) for b, t in he.switches() if he.switch_on(b)["kind"] == "discr" and he.switch_on(b)["adt"].endswith("HandlerError")]
     if not sw:
         ctx.lost(R, "variant switch in HandlerError::into_response")
@@ -357,14 +371,18 @@ def r5_every_response_stamped(ctx):
 
 
 # potential panic sites on the path from an error value to its response, each with the reason it cannot fire (frozen; keyed
-# by the source-level function, kind and callee; the number is the reviewed multiplicity)
+# by the source-level function and by WHAT THE SITE TESTS -- `<enum>::<panicking variant> <- <origin of the tested value>`
+# (lib_c13.tested_variant), so `.unwrap()`, `.expect("..")`, `let Some(x) = v else { panic!() }` and a match with an
+# unreachable!() arm on the same value are one entry; a site that is not a test of an Option/Result is keyed by the last
+# path segment of its callee; the number is the reviewed multiplicity)
 ERROR_PATH_PANICS = {
-    ("error::HttpError::for_internal_error", "unwrap"): (1, "canonical_reason() of the constant 500, which has a standard label"),
-    ("error::HttpError::for_unavail", "unwrap"): (1, "canonical_reason() of the constant 503, which has a standard label"),
-    ("error::HttpError::for_not_found", "unwrap"): (1, "canonical_reason() of the constant 404, which has a standard label"),
-    ("error::HttpError::into_response", "expect"): (1, "headers_mut() of a response builder created two statements earlier: it cannot have failed yet"),
-    ("error::HttpError::into_response", "unwrap"): (2, "serde_json of a struct of two strings and an Option<String> cannot fail; Builder::body fails only for an invalid status/header, and status is an ErrorStatusCode, the headers are constants, a HeaderMap and the request id (a UUID)"),
-    ("handler::HandlerError::into_response", "panic_fmt"): (1, "the request id is a UUID, always a valid HeaderValue (unreachable! arm)"),
+    ("error::HttpError::for_internal_error", "Option::None <- error_status_code::ErrorStatusCode::canonical_reason"): (1, "canonical_reason() of the constant 500, which has a standard label"),
+    ("error::HttpError::for_unavail", "Option::None <- error_status_code::ErrorStatusCode::canonical_reason"): (1, "canonical_reason() of the constant 503, which has a standard label"),
+    ("error::HttpError::for_not_found", "Option::None <- error_status_code::ErrorStatusCode::canonical_reason"): (1, "canonical_reason() of the constant 404, which has a standard label"),
+    ("error::HttpError::into_response", "Option::None <- http::response::Builder::headers_mut"): (1, "headers_mut() of a response builder created two statements earlier: it cannot have failed yet"),
+    ("error::HttpError::into_response", "Result::Err <- serde_json::to_string_pretty"): (1, "serde_json of a struct of two strings and an Option<String> cannot fail"),
+    ("error::HttpError::into_response", "Result::Err <- http::response::Builder::body"): (1, "Builder::body fails only for an invalid status/header, and status is an ErrorStatusCode, the headers are constants, a HeaderMap and the request id (a UUID)"),
+    ("handler::HandlerError::into_response", "Result::Err <- http::HeaderValue::from_str"): (1, "the request id is a UUID, always a valid HeaderValue (unreachable! arm)"),
 }
 
 
@@ -373,19 +391,26 @@ def r6_error_path_cannot_panic(ctx):
     adversary change C13-D (Display for HttpError did the same, and HandlerError::from calls to_string())."""
     from .lib_c10 import panic_sites
     from .lib_c16 import live_blocks
+    from .lib_c13 import site_what
     R = ctx.rule("C13.R6", "every potential panic site on the way from an error value to its response — HttpError's constructors, into_response, Display/Error impls, "
                  "HandlerError's conversions — is on the reviewed table with the reason it cannot fire for any representable status", floor=6)
-    roots = [f for f in ctx.ds.F.values() if f.raw["kind"] in ("Fn", "AssocFn") and re.search(
+    # normalised view: a closure handed to an Option/Result combinator (`.unwrap_or_else(|e| unreachable!(..))`) is spliced into
+    # the Err / None arm of a switch on the receiver, so that spelling is a test of the same value as the match it abbreviates
+    D = ctx.dsn
+    roots = [f for f in D.F.values() if f.raw["kind"] in ("Fn", "AssocFn") and re.search(
         r"^error::HttpError::|^<error::HttpError as |^handler::HandlerError::|^<handler::HandlerError as |^<error::HttpErrorResponseBody as |^error_status_code::(Client)?ErrorStatusCode::(as_|canonical_reason|is_)", f.id)]
     ctx.check(R, "error-path-functions", len(roots) >= 20, "functions of the error path examined: %d" % len(roots), nontrivial=False)
     seen = {}
     for f in roots:
-        for g in [f] + ctx.ds.descendants(f):
+        for g in [f] + D.descendants(f):
             live = live_blocks(g)
             for kind, what, exp, bb in panic_sites(g):
                 if bb not in live:
                     continue   # an arm the MIR itself shows dead (variant just assigned) or a debug_assert
-                key = (f.id, what.split("::")[-1])
+                # an unwrap-like site is keyed by what it tests (enum, panicking variant, where the value comes from):
+                # `x.expect("..")`, `let Some(v) = x else { panic!("..") }` and `match x { .., None => unreachable!() }`
+                # are the same site; anything else by its callee
+                key = (f.id, site_what(g, bb, what.split("::")[-1]))
                 seen.setdefault(key, []).append((g, bb))
     for key, sites in sorted(seen.items()):
         entry = ERROR_PATH_PANICS.get(key)
@@ -422,7 +447,27 @@ SELFTEST = [
     {"name": "wrong-const-range", "kind": "mutant", "edits": [("dropshot/src/error_status_code.rs", "            pub const $name: Self = Self(http::StatusCode::$name);", "            pub const $name: Self = Self(http::StatusCode::OK);")], "expect": ["C13.R1"], "why": "associated constants outside 400-599"},
     {"name": "prefix-f8", "kind": "mutant", "revert": "b7f29f9", "expect": ["C13.R6"], "why": "pre-fix code: for_client_error_with_status unwraps the reason phrase of an arbitrary client code"},
     {"name": "extend-headers", "kind": "benign", "edits": [("dropshot/src/error.rs", "            *builder_headers = *headers;", "            builder_headers.extend(*headers);")], "why": "HeaderMap::extend from an owned HeaderMap keeps every value"},
+    {"name": "expect-as-let-else", "kind": "benign", "why": "`opt.expect(\"..\")` written as `let Some(x) = opt else { panic!(\"..\") }`: the same panic under the same condition (headers_mut() of the fresh builder is None); the census keys a site by what it tests",
+     "edits": [("dropshot/src/error.rs", "                .expect(\"a newly created response builder cannot have failed\");",
+                "                ;\n            let Some(builder_headers) = builder_headers else {\n                panic!(\"a newly created response builder cannot have failed\")\n            };")]},
+    {"name": "f8-as-let-else", "kind": "mutant", "expect": ["C13.R6"], "why": "defect F8 spelled as a let-else: for_client_error_with_status panics for a client code without a standard reason phrase",
+     "edits": [("dropshot/src/error.rs", "            .unwrap_or(\"Client Error\")\n            .to_string();",
+                "            ;\n        let Some(message) = message else { panic!(\"no standard label\") };\n        let message = message.to_string();")]},
+    {"name": "client-from-status-then-some", "kind": "benign", "why": "`cond.then_some(Self(status)).ok_or(..)`: the wrapper is built eagerly but only observable when is_client_error() holds (decided by interpreting the function over both truth values)",
+     "edits": [("dropshot/src/error_status_code.rs", "        if status.is_client_error() {\n            Ok(Self(status))\n        } else {\n            Err(NotAClientError(status))\n        }",
+                "        status.is_client_error().then_some(Self(status)).ok_or(NotAClientError(status))")]},
+    {"name": "client-from-status-then-some-wrong-guard", "kind": "mutant", "expect": ["C13.R1"], "why": "5xx codes become representable as ClientErrorStatusCode",
+     "edits": [("dropshot/src/error_status_code.rs", "        if status.is_client_error() {\n            Ok(Self(status))\n        } else {\n            Err(NotAClientError(status))\n        }",
+                "        status.is_server_error().then_some(Self(status)).ok_or(NotAClientError(status))")]},
+    {"name": "from-status-tuple-match", "kind": "benign", "why": "match on the pair of predicates: Err exactly when both are false",
+     "edits": [("dropshot/src/error_status_code.rs", "        if status.is_client_error() || status.is_server_error() {\n            Ok(ErrorStatusCode(status))\n        } else {\n            Err(NotAnError(status))\n        }",
+                "        match (status.is_client_error(), status.is_server_error()) {\n            (false, false) => Err(NotAnError(status)),\n            _ => Ok(ErrorStatusCode(status)),\n        }")]},
+    {"name": "from-status-tuple-match-wrong-arm", "kind": "mutant", "expect": ["C13.R1"], "why": "the Err arm of the pair match covers only one of the non-error cases: 1xx-3xx become representable",
+     "edits": [("dropshot/src/error_status_code.rs", "        if status.is_client_error() || status.is_server_error() {\n            Ok(ErrorStatusCode(status))\n        } else {\n            Err(NotAnError(status))\n        }",
+                "        match (status.is_client_error(), status.is_server_error()) {\n            (false, true) => Err(NotAnError(status)),\n            _ => Ok(ErrorStatusCode(status)),\n        }")]},
     {"name": "commuted-or", "kind": "benign", "edits": [("dropshot/src/error_status_code.rs", "if status.is_client_error() || status.is_server_error() {", "if status.is_server_error() || status.is_client_error() {")], "why": "same predicate"},
 ]
 
-LEVEL_TEXT += " Also (R6): every potential panic site between an error value and its response is on a reviewed table (no constructor, Display impl or conversion can panic for a representable status), and every writer of an error's header map appends."
+LEVEL_TEXT += (" Also (R6): every potential panic site between an error value and its response is on a reviewed table (no constructor, Display impl or conversion can panic for a representable status) — "
+               "a site that tests an Option/Result (unwrap / expect / a match or let-else arm that panics / a panicking closure given to a combinator) is keyed by the tested value and variant, not by its "
+               "spelling — and every writer of an error's header map appends.")
